@@ -59,6 +59,7 @@ int ValueCode(const T& v, bool& fresh) {
 template <typename V, typename R>
 void Digest(Obs& o, const R& r, const Shared& sh) {
   o.at = Stamp();
+  VF_R(sh.side, "C04,C01");
   o.side = sh.side;  // plain read: ordered after the producer's write only through the library
   o.tag = CurTag();
   o.state = static_cast<int>(r.State());
@@ -91,6 +92,7 @@ inline void Jitter(u32 n) {
 
 template <typename V>
 void Produce(yaclib::Promise<V, MyError>&& p, int kind, int code, Shared& sh) {
+  VF_W(sh.side, "C04,C01");
   sh.side = code;
   sh.set_call = Stamp();
   switch (kind) {
